@@ -1,11 +1,21 @@
 (* Corr/C17.v — correspondence runner: the model is stepped with the events the harness observed on the
    real pqueue and must reproduce the hook snapshot (ordered active and queued lists) after each. *)
 From Coq Require Import List Arith Bool.
-From Verif Require Import Base.StrX Model.C17_PQueue.
+From Verif Require Import Base.StrX Model.C17_PQueue Model.C17_Multi.
 Import ListNotations.
 
 Record obs := mkObs { o_q : nat; o_ev : event; o_chk : bool; o_active : list nat; o_queued : list nat }.
-Record case := mkCase { c_max : list nat; c_trace : list obs }.
+(* scripted AcquireMulti scenario against the composed model: caller 0 is the AcquireMulti call, every other caller
+   is one filler slot; the snapshot of every queue must be reproduced exactly at each stable point *)
+Inductive mstep :=
+| MStep (x : nat)            (* one critical section of caller x *)
+| MRun (x : nat)             (* caller x runs until it blocks or holds everything *)
+| MFin (x : nat)             (* caller x runs to the end (release function included) *)
+| MObs (snaps : list (list nat * list nat)) (mst : nat).   (* observed queues; state of caller 0: 1 waiting, 2 holding all, 3 done *)
+
+Inductive case :=
+| mkCase (c_max : list nat) (c_trace : list obs)
+| mkMulti (maxes : list nat) (wants : list (list nat)) (script : list mstep).
 
 Definition leqb := list_eqb Nat.eqb.
 
@@ -31,7 +41,32 @@ Fixpoint replay (qs : list q) (t : list obs) : bool :=
       end
   end.
 
-Definition check (c : case) : bool := replay (map init (c_max c)) (c_trace c).
+Fixpoint snaps_ok (s : sys) (k : nat) (snaps : list (list nat * list nat)) : bool :=
+  match snaps with
+  | [] => true
+  | (a, w) :: r => leqb (active (qs s k)) a && leqb (queued (qs s k)) w && snaps_ok s (S k) r
+  end.
+Definition mst_ok (s : sys) (m : nat) : bool :=
+  match st (cs s 0), m with
+  | CWait _, 1 => true
+  | CHold, 2 => true
+  | CDone, 3 => true
+  | _, _ => false
+  end.
+Fixpoint mreplay (s : sys) (sc : list mstep) : bool :=
+  match sc with
+  | [] => true
+  | MStep x :: r => match cstep s x 0 with Some s' => mreplay s' r | None => false end
+  | MRun x :: r => mreplay (run_caller 64 s x true) r
+  | MFin x :: r => mreplay (run_caller 64 s x false) r
+  | MObs snaps m :: r => snaps_ok s 0 snaps && mst_ok s m && mreplay s r
+  end.
+
+Definition check (c : case) : bool :=
+  match c with
+  | mkCase c_max c_trace => replay (map init c_max) c_trace
+  | mkMulti maxes wants script => mreplay (init_sys maxes wants) script
+  end.
 
 Fixpoint mismatches_from (i : nat) (cs : list case) : list nat :=
   match cs with
